@@ -129,7 +129,7 @@ def _agree(a, b, c, v, uid):
 
 def jobs(tier):
     q = tier == "quick"
-    T = 300 if q else 1200
+    T = 600 if q else 1200
     js = []
     for n in ([0, 3] if q else [0, 1, 2, 3, 4, 5]):
         for uid in (False, True):
